@@ -2039,4 +2039,26 @@ Proof.
   - intros m Hm. rewrite Hm in H5. apply calcs_okb_sound. exact H5.
 Qed.
 
+
+(* whole histories of such bundles *)
+Fixpoint bundles_ok2 (s : state) (bs : list (list (event O))) : bool :=
+  match bs with
+  | [] => true
+  | es :: rest =>
+      bundle_ok2 s es && match run O s es with Ok (s1, _) => bundles_ok2 s1 rest | Err _ => true end
+  end.
+
+Lemma bundles_ok2_sound : forall bs s, bundles_ok2 s bs = true -> bundles_ok O s bs.
+Proof.
+  induction bs as [|es rest IH]; intros s H; cbn in *; [exact I|].
+  apply andb_true_iff in H. destruct H as [H1 H2]. split.
+  - intros s' out Hr. eapply bundle_ok2_undo; eassumption.
+  - destruct (run O s es) as [[s1 o]|]; [apply IH; exact H2 | exact I].
+Qed.
+
+Theorem history_ok2_undo : forall bs s s' us,
+  bundles_ok2 s bs = true -> run_history O s bs = Ok (s', us) ->
+  exists s'', undo_history O us s' = Ok s'' /\ seq O s'' s.
+Proof. intros bs s s' us H Hr. eapply (history_undo O L); [apply bundles_ok2_sound; exact H | exact Hr]. Qed.
+
 End Calc.
